@@ -23,7 +23,10 @@ RULE = ('loop cases = directory shape (parent vectors, <= 3 dirs quick / 4 thoro
         '(location, target) pairs x IGNORE {none, on a link, on a directory above a '
         'link} x walker {verify-lenient, scan, update} x walk permutation; xdev cases '
         '= link position x {dir link, file link} x {listed, stray} x {ignored, not} x '
-        'allow_xdev. Non-trivial = at least one symlink; distinct = the tuple.')
+        'allow_xdev, incl. a sub-Manifest that is a link to the other file system; pairs '
+        '= 2..4 hidden and 2..4 IGNOREd directories next to each other, each holding a '
+        'loop or a foreign file system. Non-trivial = at least one symlink; distinct = '
+        'the tuple.')
 ANCHORS = ['recursiveloader:ManifestRecursiveLoader.assert_directory_verifies',
            'recursiveloader:ManifestRecursiveLoader.load_unregistered_manifests',
            'recursiveloader:ManifestRecursiveLoader.update_entries_for_directory',
